@@ -54,6 +54,8 @@ def strat(tier):
             st.tuples(st.just('update_map'), st.lists(st.tuples(key, cnt).map(list), max_size=5), st.sampled_from(['dict', 'counter', 'odict', 'proxy', 'chainmap', 'userdict'])),
             st.tuples(st.just('update_kw'), st.lists(st.tuples(key, cnt).map(list), min_size=1, max_size=4)),
             st.tuples(st.just('update_reentrant'), st.lists(key, min_size=1, max_size=8), key),
+            st.tuples(st.just('update_map_kw'), st.lists(st.tuples(key, cnt).map(list), min_size=1, max_size=3),
+                      st.lists(st.tuples(key, cnt).map(list), min_size=1, max_size=3)),
             st.tuples(st.just('update_both'), st.lists(key, max_size=6), st.lists(st.tuples(key, cnt).map(list), min_size=1, max_size=3)),
             st.tuples(st.just('plan'),
                       st.lists(st.tuples(st.integers(2, 6), st.integers(1, 30)).map(list), max_size=4),
@@ -271,6 +273,15 @@ def run(case):
                 d[KW(i)] = c
             ks = [k for k, c in d.items() for _ in range(c)]
             calls.append(('update(**%r)' % dict(d), ks, lambda a=dict(d): tc.update(**a)))
+        elif name == 'update_map_kw':
+            # a positional mapping and keyword counts in one call, naming the same keys: both counts are additions
+            d1, d2 = collections.OrderedDict(), collections.OrderedDict()
+            for i, c in op[1]:
+                d1[KW(i)] = c
+            for i, c in op[2]:
+                d2[KW(i)] = c
+            ks = [k for k, c in d1.items() for _ in range(c)] + [k for k, c in d2.items() for _ in range(c)]
+            calls.append(('update(%r, **%r)' % (dict(d1), dict(d2)), ks, lambda a=dict(d1), b=dict(d2): tc.update(a, **b)))
         elif name == 'update_both':
             ks1 = [K(i) for i in op[1]]
             d = collections.OrderedDict()
